@@ -26,7 +26,6 @@ stub! {
     fn verif_terminated(me: usize);
 }
 
-pub const MAX_CHILDREN: usize = 2;
 
 fn drv_c12_pop(me: usize) -> bool {
     if verif_pop_local(me) { return true; }
@@ -39,8 +38,8 @@ pub fn drv_c12_worker(term: &Terminator, me: usize) {
     loop {
         if drv_c12_pop(me) {
             verif_process_begin(me);
-            let mut i = 0;
-            while i < MAX_CHILDREN {
+            // children of the item (their number is bounded by the ghost budget inside verif_child)
+            loop {
                 match verif_child(me) {
                     0 => break,
                     1 => {
@@ -59,7 +58,6 @@ pub fn drv_c12_worker(term: &Terminator, me: usize) {
                         term.wake_up();
                     }
                 }
-                i += 1;
             }
             verif_process_end(me);
         } else if term.try_terminate() {
